@@ -8,6 +8,7 @@ import EinxModel.Driver.Cse
 import EinxModel.Driver.CseTrees
 import EinxModel.Driver.Cache
 import EinxModel.Driver.CacheConc
+import EinxModel.Driver.NumHash
 import EinxModel.Driver.Concurrent
 import EinxModel.Driver.IR
 import EinxModel.Driver.Order
@@ -40,6 +41,7 @@ def dispatch (j : Json) : R Json := do
   | "notation_nf" => Einx.Driver.NotationNF.handle j
   | "cache-table" | "freeze" | "pyeq" | "pyhash" | "memo" | "stack" => Einx.Driver.Cache.handle j
   | "cache_sched" | "cache_explore" => Einx.Driver.CacheConc.handle j
+  | "numhash" => Einx.Driver.NumHash.handle j
   | "solve" | "checksat" | "checkaxes" => Einx.Driver.Solve.handle j
   | "shorthand" => Einx.Driver.Shorthand.handle j
   | "value_range" => Einx.Driver.Cse.handle j
